@@ -2,7 +2,8 @@
 """Runs the repository suite with the verif guard OFF and compares with BASELINE.json stable_pass."""
 import json, subprocess, os, sys
 env = dict(os.environ, GOFLAGS="-mod=mod", GOPROXY="off", GOSUMDB="off", GOTOOLCHAIN="local")
-out = subprocess.run("cd /repo && go test -json -vet=off -count=1 -timeout 25m ./...", shell=True, text=True, capture_output=True, env=env).stdout
+repo = os.environ.get("BASELINE_REPO", "/repo")
+out = subprocess.run("cd " + repo + " && go test -json -vet=off -count=1 -timeout 25m ./...", shell=True, text=True, capture_output=True, env=env).stdout
 passed = set()
 for l in out.splitlines():
     try: e = json.loads(l)
